@@ -512,13 +512,6 @@ func (e *renv) statesV1(ep *ibctesting.Endpoint, seq uint64, recv bool) []stateV
 		{"chan-cpchan", setCh(func(ch *channeltypes.Channel) { ch.Counterparty.ChannelId = "channel-55" }), restCh},
 		{"chan-cpport", setCh(func(ch *channeltypes.Channel) { ch.Counterparty.PortId = "transfer" }), restCh},
 		{"chan-order-none", setCh(func(ch *channeltypes.Channel) { ch.Ordering = channeltypes.NONE }), restCh},
-		{"chan-order-flip", setCh(func(ch *channeltypes.Channel) {
-			if ch.Ordering == channeltypes.ORDERED {
-				ch.Ordering = channeltypes.UNORDERED
-			} else {
-				ch.Ordering = channeltypes.ORDERED
-			}
-		}), restCh},
 		{"chan-conn-missing", setCh(func(ch *channeltypes.Channel) { ch.ConnectionHops = []string{"connection-99"} }), restCh},
 		{"conn-INIT", setConn(func(cn *connectiontypes.ConnectionEnd) { cn.State = connectiontypes.INIT }), restConn},
 		{"conn-TRYOPEN", setConn(func(cn *connectiontypes.ConnectionEnd) { cn.State = connectiontypes.TRYOPEN }), restConn},
